@@ -235,6 +235,8 @@ def _run_path(interp: Interp, ctx: Ctx, c: dict, key: str, rep: FunctionReport):
     interp.old_ghost = _ghost_copy(ctx.ghost)
     f = interp.make_ifunc(mod, qual)
     interp.loopspecs = c.get("loops", {})
+    interp.stubs = dict(c.get("stubs") or {})
+    interp.inline_keys = set(c.get("inline") or ())
     interp.entry_old = old
     args = []
     kwargs = {}
